@@ -5,7 +5,10 @@ def nontrivial(seq):
     gated = ops.count("upd") >= 2 and any(o.startswith(("blocked", "parked-save")) for o in obs)
     burst = "burst" in ops
     svc = ops.count("usp") >= 3 and any(o.startswith("ok ") for (op, _), o in zip(seq, obs) if op.startswith("usp"))
-    return gated or burst or svc
+    race = ops.count("gusp") >= 2 and any(o.startswith("blocked") for o in obs)
+    lead = ops.count("lead") >= 2 and "set" in ops
+    bulk = "bulk" in ops
+    return gated or burst or svc or race or lead or bulk
 
 
 def coverage_extra(results, vlib):
@@ -44,10 +47,10 @@ SPEC = {
     "lean_files": ["PdModel/Model/GcSafePoint.lean", "PdModel/Lemmas/GcSafePoint.lean", "PdModel/Lemmas/GcService.lean",
                    "PdModel/Props/C15.lean", "PdModel/Spec/C15.lean", "PdModel/Driver/GcSafePoint.lean"],
     "gen": {
-        "quick": {"args": ["-n", "40", "-len", "28", "-streams", "4"], "streams": 4},
-        "thorough": {"args": ["-n", "900", "-len", "40", "-streams", "16"], "streams": 16},
+        "quick": {"args": ["-n", "40", "-len", "28", "-streams", "4", "-maxsec", "40"], "streams": 4},
+        "thorough": {"args": ["-n", "900", "-len", "40", "-streams", "16", "-maxsec", "500"], "streams": 16},
     },
-    "search": {"args": ["-n", "150", "-len", "36", "-streams", "8"], "streams": 8},
+    "search": {"args": ["-n", "150", "-len", "36", "-streams", "8", "-maxsec", "60"], "streams": 8},
     "nontrivial": nontrivial,
     "coverage_extra": coverage_extra,
     "rule": "in-process PD server, real gRPC handlers. (1) every interleaving of 2 and of 3 concurrent UpdateGCSafePoint "
@@ -57,7 +60,10 @@ SPEC = {
             "concurrent updates; (3) random service histories: registrations, renewals, ttl<=0 removals, expiry by "
             "moving the TSO, legacy raw records (finite or missing gc_worker), API deletes, failing n-th storage "
             "write, malformed ids (empty, '..', 'a/../b', 'a//b'), boundary TTLs (MaxInt64, MaxInt64-now+-2, MinInt64) "
-            "and safe points up to MaxUint64. non-trivial = >=2 gated requests with a blocked/parked-save step, or a "
+            "and safe points up to MaxUint64; (4) 2-3 service requests in flight together (gusp/sstep: first parked before the "
+            "handler's own save, the others blocked on serviceSafePointLock); (5) bulk: 95-205 registrations with ids "
+            "extending one another around key positions 100 and 200, then minimum / list / pruning; (6) one stream on "
+            "TWO servers: set/get/burst at the current leader while the leadership moves back and forth. non-trivial = >=2 gated requests with a blocked/parked-save step, or a "
             "burst, or >=3 service requests with an ok answer; distinct = distinct op sequence",
     "model_text": "PdModel/Model/GcSafePoint.lean: begin/acquire/load/save micro-steps of Server.UpdateGCSafePoint "
                   "(atomic flag regenerated from the source), GetGCSafePoint; UpdateServiceGCSafePoint = uspRemove, "
